@@ -2,11 +2,15 @@
 C06 — the counting twins of Model/PayloadCostDesc.lean (the payload readers that call the descriptor reader) erase to
 the readers of the payload models and obey the cost judgement with the constants recorded in their `CC.hand`.
 
-`SliceV6` / `SlicesV6` / `Slices` do NOT obey it: see the last section.
+`SliceV6` / `SlicesV6` / `Slices` do NOT obey it (`SliceV6.decC_not_cost`: a slice that succeeds is not paid by the bytes it
+consumed, because its speculative descriptor read may scan everything that is left and then be undone). What holds:
+`SliceV6.decC_left` (≤ 4 · bytes LEFT + 42, ≥ 69 bytes consumed on success), `SlicesV6.decC_left` and `Slices.decC_left`
+(QUADRATIC in the bytes left, whatever the count). They are not in `descTable` (see `descNotLinear`).
 -/
 import PsdVerif.Model.PayloadCostDesc
 import PsdVerif.Lemmas.DescriptorCost
 import PsdVerif.Lemmas.PayloadCostSimple
+import PsdVerif.Lemmas.Payload3Resources
 
 namespace PsdVerif.PayloadCost
 open PsdVerif PsdVerif.Codec PsdVerif.PsdCost PsdVerif.Payload PsdVerif.Payload3 PsdVerif.Safe PsdVerif.SafeCost
@@ -836,6 +840,253 @@ theorem SliceV6.decC_left (tb : Descriptor.Tables) (d : B) (p : Nat) (hp : p ≤
     (SliceV6.decC tb d p).2.w ≤ 4 * (d.length - p) + 42 ∧ (SliceV6.decC tb d p).1 ≠ .error .other :=
   ⟨(SliceV6.decC_weak tb hp).w_le, (SliceV6.decC_weak tb hp).ne_other⟩
 
+/-! ### the judgement `Cost` fails for SliceV6: a witness
+
+A slice without a descriptor followed by the `bait` — eight bytes that read as the head of a descriptor block whose
+name is 2³¹ − 1 UTF-16 units long (and equally as the id 16 and the group id of a next slice), then `2m + 1` more bytes:
+the speculative read copies all of them, fails to decode an odd number of bytes (`UnicodeDecodeError`, a `ValueError`)
+and is undone. The slice consumed its own bytes only; it cost more than `2m + 1`. -/
+
+/-- `00 00 00 10` (the version 16 of a descriptor block — or the id of the next slice), `7F FF FF FF` (the length of the
+block's name in UTF-16 units — or the group id of the next slice), then an odd number of bytes -/
+def SliceV6.bait (m : Nat) : B := [0, 0, 0, 16, 127, 255, 255, 255] ++ List.replicate (2 * m + 1) 0
+
+theorem unitsOfBytes_odd (m : Nat) : Unicode.unitsOfBytes (List.replicate (2 * m + 1) 0) = none := by
+  induction m with
+  | zero => rfl
+  | succ m ih =>
+    have : 2 * (m + 1) + 1 = (2 * m + 1) + 1 + 1 := by omega
+    rw [this, List.replicate_succ, List.replicate_succ]
+    unfold Unicode.unitsOfBytes
+    rw [ih]
+
+theorem drop_pre (pre t : B) (i : Nat) : (pre ++ t).drop (pre.length + i) = t.drop i := by
+  rw [← List.drop_drop, List.drop_left]
+
+theorem SliceV6.bait_len (m : Nat) : (SliceV6.bait m).length = 2 * m + 9 := by
+  unfold SliceV6.bait
+  simp only [List.length_append, List.length_replicate, List.length_cons, List.length_nil]
+  omega
+
+theorem SliceV6.bait_readU (pre : B) (m : Nat) : readU 4 (pre ++ SliceV6.bait m) pre.length = .ok (16, pre.length + 4) := by
+  have hl := SliceV6.bait_len m
+  unfold readU readN
+  rw [if_pos (by rw [List.length_append]; omega), List.drop_left]
+  rfl
+
+theorem SliceV6.bait_readU32 (pre : B) (m : Nat) :
+    Unicode.readU32 (pre ++ SliceV6.bait m) (pre.length + 4) = .ok (2147483647, pre.length + 4 + 4) := by
+  unfold Unicode.readU32 Unicode.slice
+  rw [drop_pre]
+  rfl
+
+theorem SliceV6.bait_raw (pre : B) (m : Nat) (hm : 2 * m + 1 ≤ 4294967294) :
+    Unicode.slice (pre ++ SliceV6.bait m) (pre.length + 4 + 4) (2 * 2147483647) = List.replicate (2 * m + 1) 0 := by
+  unfold Unicode.slice
+  rw [Nat.add_assoc, drop_pre]
+  show List.take _ (List.replicate (2 * m + 1) 0) = _
+  rw [List.take_of_length_le]
+  rw [List.length_replicate]; omega
+
+theorem SliceV6.bait_readStr (pre : B) (m : Nat) (hm : 2 * m + 1 ≤ 4294967294) :
+    Descriptor.readStr (pre ++ SliceV6.bait m) (pre.length + 4) = .error .unicodeError := by
+  unfold Descriptor.readStr Unicode.readUnicodeString
+  rw [SliceV6.bait_readU32]
+  dsimp only
+  rw [SliceV6.bait_raw pre m hm, unitsOfBytes_odd]
+  rfl
+
+theorem SliceV6.bait_block (tb : Descriptor.Tables) (pre : B) (m : Nat) (hm : 2 * m + 1 ≤ 4294967294) :
+    Descriptor.Block.dec tb (pre ++ SliceV6.bait m) pre.length = .error .unicodeError := by
+  unfold Descriptor.Block.dec Descriptor.rbind
+  rw [SliceV6.bait_readU]
+  dsimp only
+  unfold Descriptor.readBody Descriptor.rbind
+  rw [SliceV6.bait_readStr pre m hm]
+
+/-- the attempt on the bait is undone — it consumed nothing — and it cost more than the `2m + 1` bytes it copied -/
+theorem SliceV6.tryBlockC_bait (tb : Descriptor.Tables) (pre : B) (m : Nat) (hm : 2 * m + 1 ≤ 4294967294) :
+    (SliceV6.tryBlockC tb (pre ++ SliceV6.bait m) pre.length).1 = .ok (none, pre.length) ∧
+    2 * m + 8 ≤ (SliceV6.tryBlockC tb (pre ++ SliceV6.bait m) pre.length).2.w := by
+  constructor
+  · unfold SliceV6.tryBlockC
+    dsimp only
+    rw [DescriptorCost.Block.decC_fst, SliceV6.bait_block tb pre m hm]
+  · show 2 * m + 8 ≤ (DescriptorCost.Block.decC tb (pre ++ SliceV6.bait m) pre.length).2.w
+    unfold DescriptorCost.Block.decC DescriptorCost.rbindC
+    have h1 : (readUC 4 (pre ++ SliceV6.bait m) pre.length).1 = .ok (16, pre.length + 4) := by
+      rw [readUC_fst]; exact SliceV6.bait_readU pre m
+    rw [bind_ok' h1]
+    dsimp only
+    unfold DescriptorCost.readBodyC DescriptorCost.rbindC
+    have h2 : (DescriptorCost.readStrC (pre ++ SliceV6.bait m) (pre.length + 4)).1 = .error .unicodeError := by
+      rw [DescriptorCost.er_readStrC]; exact SliceV6.bait_readStr pre m hm
+    rw [bind_err' h2]
+    show 2 * m + 8 ≤ ((readUC 4 (pre ++ SliceV6.bait m) pre.length).2 + (readUStrC 1 (pre ++ SliceV6.bait m) (pre.length + 4)).2).w
+    rw [w_add]
+    have hw : (readUStrC 1 (pre ++ SliceV6.bait m) (pre.length + 4)).2.w =
+        3 + (4 + (Unicode.slice (pre ++ SliceV6.bait m) (pre.length + 4 + 4) (2 * 2147483647)).length +
+          (Unicode.slice (pre ++ SliceV6.bait m)
+            (pre.length + 4 + 4 + (Unicode.slice (pre ++ SliceV6.bait m) (pre.length + 4 + 4) (2 * 2147483647)).length)
+            (Unicode.padLen (4 + 2 * 2147483647) 1)).length) := by
+      unfold readUStrC
+      rw [SliceV6.bait_readU32]
+      rfl
+    rw [hw, SliceV6.bait_raw pre m hm, List.length_replicate]
+    omega
+
+theorem le_w_bind_ok {α β : Type} {m : CE β} {f : β → CE α} {a : β} {n : Nat} (h : m.1 = .ok a) (hn : n ≤ (f a).2.w) :
+    n ≤ (m >>= f).2.w := by
+  rw [bind_ok' h]
+  show n ≤ (m.2 + (f a).2).w
+  rw [w_add]
+  omega
+
+theorem SliceV6.peekDataC_bait (tb : Descriptor.Tables) (pre : B) (m : Nat) (hm : 2 * m + 1 ≤ 4294967294) :
+    (SliceV6.peekDataC tb (pre ++ SliceV6.bait m) pre.length).1 = .ok (none, pre.length) ∧
+    2 * m + 8 ≤ (SliceV6.peekDataC tb (pre ++ SliceV6.bait m) pre.length).2.w := by
+  have hl := SliceV6.bait_len m
+  have hr : isReadable 4 (pre ++ SliceV6.bait m) pre.length = true := by
+    unfold isReadable
+    rw [List.length_append]
+    exact decide_eq_true (by omega)
+  have h0 : (isReadableC 4 (pre ++ SliceV6.bait m) pre.length).1 = .ok true := by rw [isReadableC_fst, hr]
+  have h1 : (readUC 4 (pre ++ SliceV6.bait m) pre.length).1 = .ok (16, pre.length + 4) := by
+    rw [readUC_fst]; exact SliceV6.bait_readU pre m
+  have ht := SliceV6.tryBlockC_bait tb pre m hm
+  unfold SliceV6.peekDataC
+  constructor
+  · rw [bind_ok' h0]
+    dsimp only
+    rw [if_pos rfl, bind_ok' h1]
+    dsimp only
+    rw [if_pos rfl]
+    exact ht.1
+  · refine le_w_bind_ok h0 ?_
+    dsimp only
+    rw [if_pos rfl]
+    refine le_w_bind_ok h1 ?_
+    dsimp only
+    rw [if_pos rfl]
+    exact ht.2
+
+theorem le_w_bind_left {α β : Type} {m : CE β} {f : β → CE α} {a : β} {n : Nat} (h : m.1 = .ok a) (hn : n ≤ m.2.w) :
+    n ≤ (m >>= f).2.w := by
+  rw [bind_ok' h]
+  show n ≤ (m.2 + (f a).2).w
+  rw [w_add]
+  omega
+
+/-- a slice without a descriptor, followed by the bait: the slice is read, it consumed exactly its own bytes, and it
+cost more than the `2m + 1` bytes that follow the bait's header -/
+theorem SliceV6.decC_bait_at (tb : Descriptor.Tables) {x : SliceV6} (hwf : SliceV6.WF tb x) (hf : SliceV6.Fits tb x)
+    (hx : x.data = none) (m : Nat) (hm : 2 * m + 1 ≤ 4294967294) {d : B} {p : Nat}
+    (h : At d p (SliceV6.encT tb x ++ SliceV6.bait m))
+    (hend : d.length = p + (SliceV6.encT tb x).length + (2 * m + 9)) :
+    (SliceV6.decC tb d p).1 = .ok (x, p + (SliceV6.encT tb x).length) ∧ 2 * m + 8 ≤ (SliceV6.decC tb d p).2.w := by
+  obtain ⟨wa, w1, w2, w3, w4, w5, w6, w7, wd⟩ := hwf
+  obtain ⟨f1, f2, f3, f4, f5, f6, f7, f8, f9, f10, f11, f12, f13, f14⟩ := hf
+  obtain ⟨head, assoc, name, st, bbox, url, target, message, altTag, html, cellText, align, argb, data⟩ := x
+  simp only at hx
+  subst hx
+  simp only [SliceV6.assocWritten] at wa f2
+  have hnone : optT (Descriptor.Block.encT tb 1) (none : Option Descriptor.Block) = [] := rfl
+  simp only [SliceV6.encT, SliceV6.tailT, SliceV6.assocWritten, hnone, List.append_assoc, List.append_nil] at h hend ⊢
+  obtain ⟨e1, h⟩ := fmt_step' (fs := SliceV6.headFmt) rfl f1 (fmtWF_of_plain _ _ rfl) h
+  obtain ⟨e2, h⟩ := SliceV6.assoc_step wa f2 h
+  obtain ⟨e3, h⟩ := ustr_step w1 f3 h
+  obtain ⟨e4, h⟩ := fmt_step' (fs := [U 4]) rfl f4 (fmtWF_of_plain _ _ rfl) h
+  obtain ⟨e5, h⟩ := fmt_step' (fs := SliceV6.bboxFmt) rfl f5 (fmtWF_of_plain _ _ rfl) h
+  obtain ⟨e6, h⟩ := ustr_step w2 f6 h
+  obtain ⟨e7, h⟩ := ustr_step w3 f7 h
+  obtain ⟨e8, h⟩ := ustr_step w4 f8 h
+  obtain ⟨e9, h⟩ := ustr_step w5 f9 h
+  obtain ⟨e10, h⟩ := fmt_step' (fs := [Q]) rfl f10 w7 h
+  obtain ⟨e11, h⟩ := ustr_step w6 f11 h
+  obtain ⟨e12, h⟩ := fmt_step' (fs := [U 4, U 4]) rfl f12 (fmtWF_of_plain _ _ rfl) h
+  obtain ⟨e13, h⟩ := fmt_step' (fs := SliceV6.argbFmt) rfl f13 (fmtWF_of_plain _ _ rfl) h
+  obtain ⟨pre, post, rfl, hq⟩ := h
+  have hl := SliceV6.bait_len m
+  have hpost : post = [] := by
+    apply List.eq_nil_of_length_eq_zero
+    simp only [List.length_append] at hend hq
+    omega
+  subst hpost
+  simp only [List.append_nil] at e1 e2 e3 e4 e5 e6 e7 e8 e9 e10 e11 e12 e13 ⊢
+  have hk := SliceV6.peekDataC_bait tb pre m hm
+  rw [hq] at hk
+  have e14 := hk.1
+  rw [SliceV6.peekDataC_fst] at e14
+  constructor
+  · rw [SliceV6.decC_fst]
+    simp only [SliceV6.dec, bind, Except.bind, e1, e2, e3, e4, e5, e6, e7, e8, e9, e10, e11, e12, e13, e14]
+    simp only [List.length_append, Nat.add_assoc]
+  · unfold SliceV6.decC
+    refine le_w_bind_ok (by rw [fmtDecC_fst]; exact e1) ?_
+    dsimp only
+    refine le_w_bind_ok (by rw [SliceV6.assocDecC_fst]; exact e2) ?_
+    dsimp only
+    refine le_w_bind_ok (by rw [readUStrC_fst]; exact e3) ?_
+    dsimp only
+    refine le_w_bind_ok (by rw [fmtDecC_fst]; exact e4) ?_
+    dsimp only
+    refine le_w_bind_ok (by rw [fmtDecC_fst]; exact e5) ?_
+    dsimp only
+    refine le_w_bind_ok (by rw [readUStrC_fst]; exact e6) ?_
+    dsimp only
+    refine le_w_bind_ok (by rw [readUStrC_fst]; exact e7) ?_
+    dsimp only
+    refine le_w_bind_ok (by rw [readUStrC_fst]; exact e8) ?_
+    dsimp only
+    refine le_w_bind_ok (by rw [readUStrC_fst]; exact e9) ?_
+    dsimp only
+    refine le_w_bind_ok (by rw [fmtDecC_fst]; exact e10) ?_
+    dsimp only
+    refine le_w_bind_ok (by rw [readUStrC_fst]; exact e11) ?_
+    dsimp only
+    refine le_w_bind_ok (by rw [fmtDecC_fst]; exact e12) ?_
+    dsimp only
+    refine le_w_bind_ok (by rw [fmtDecC_fst]; exact e13) ?_
+    dsimp only
+    exact le_w_bind_left hk.1 hk.2
+
+/-- a slice of 69 zero bytes -/
+def SliceV6.blank : SliceV6 :=
+  ⟨[.int 0, .int 0, .int 0], none, [], [.int 0], [.int 0, .int 0, .int 0, .int 0], [], [], [], [], [.int 0], [],
+    [.int 0, .int 0], [.int 0, .int 0, .int 0, .int 0], none⟩
+
+theorem SliceV6.blank_wf (tb : Descriptor.Tables) : SliceV6.WF tb SliceV6.blank :=
+  ⟨by decide, by decide, by decide, by decide, by decide, by decide, by decide, by decide, trivial⟩
+
+theorem SliceV6.blank_fits (tb : Descriptor.Tables) : SliceV6.Fits tb SliceV6.blank :=
+  ⟨by decide, by decide, by decide, by decide, by decide, by decide, by decide, by decide, by decide, by decide,
+    by decide, by decide, by decide, trivial⟩
+
+theorem SliceV6.blank_len (tb : Descriptor.Tables) : (SliceV6.encT tb SliceV6.blank).length = 69 := rfl
+
+/-- the 69 + 9 + 2m bytes `blank ++ bait m`: `SliceV6.read` returns the blank slice at cursor 69 and costs ≥ 2m + 8 -/
+theorem SliceV6.decC_blank_bait (tb : Descriptor.Tables) (m : Nat) (hm : 2 * m + 1 ≤ 4294967294) :
+    (SliceV6.decC tb (SliceV6.encT tb SliceV6.blank ++ SliceV6.bait m) 0).1 = .ok (SliceV6.blank, 69) ∧
+    2 * m + 8 ≤ (SliceV6.decC tb (SliceV6.encT tb SliceV6.blank ++ SliceV6.bait m) 0).2.w := by
+  have h := SliceV6.decC_bait_at tb (SliceV6.blank_wf tb) (SliceV6.blank_fits tb) rfl m hm
+    (d := SliceV6.encT tb SliceV6.blank ++ SliceV6.bait m) (p := 0) (At.self _)
+    (by rw [List.length_append, SliceV6.bait_len]; omega)
+  rw [SliceV6.blank_len] at h
+  exact h
+
+/-- so `SliceV6` does not obey `Cost`, whatever the coefficient and the constant (below the 2³² a length field can hold):
+a slice that succeeds is NOT paid by the bytes it consumed -/
+theorem SliceV6.decC_not_cost (tb : Descriptor.Tables) (a b k : Nat) (hb : a * 69 + b < 4294967294) :
+    ¬ CostR a b k (SliceV6.decC tb) := by
+  intro h
+  have hw := SliceV6.decC_blank_bait tb ((a * 69 + b) / 2) (by omega)
+  have hc := (h _ 0 (Nat.zero_le _)).of_ok hw.1
+  have h2 := hc.2.2
+  have e : a * (69 - 0) = a * 69 := rfl
+  rw [e] at h2
+  omega
+
+
 /-! ### SlicesV6 / Slices: quadratic -/
 
 /-- ticks + bytes ≤ (bytes left + 1) · (a · (bytes left) + b), whatever the outcome -/
@@ -1078,23 +1329,38 @@ theorem Slices.decC_left (tb : Descriptor.Tables) (d : B) (p : Nat) (hp : p ≤ 
 
 /-! ## the table of the unit -/
 
-/-- the classes of this unit that obey `Cost` (the shapes do not depend on the tables `tb`) -/
-def descTable (tb : Descriptor.Tables) : List (String × Sh) := [
-  ("MetadataSetting", (MetadataSetting.cc tb).sh),
-  ("MetadataSettings", (MetadataSettings.cc tb).sh),
-  ("SmartObjectLayerData", (SmartObjectLayerData.cc tb 4).sh),
-  ("PlacedLayerData", (PlacedLayerData.cc tb 4).sh),
-  ("TypeToolObjectSetting", (TypeToolObjectSetting.cc tb 4).sh),
-  ("LinkedLayer", (LinkedLayer.cc tb 1).sh),
-  ("LinkedLayers", (LinkedLayers.cc tb).sh),
-  ("ColorLookup", (ColorLookup.cc tb 4).sh),
-  ("VectorStrokeContentSetting", (VectorStrokeContentSetting.cc tb 4).sh),
-  ("DescriptorBlock", (DescriptorResource.cc tb).sh),
-  ("DescriptorBlock", (DescriptorPayload.cc tb 4).sh),
-  ("DescriptorBlock2", (Descriptor2Payload.cc tb 4).sh)]
+/-- the classes of this unit that obey `Cost` with the constants proved above (a shape does not depend on the tables
+`tb`: `descTable_cc` ties every row to the `cc` of its class) -/
+def descTable : List (String × Sh) := [
+  ("MetadataSetting", .hand "MetadataSetting" 6 16 16 [⟨"count", 4⟩]),
+  ("MetadataSettings", .hand "MetadataSettings" 23 18 4 [⟨"count", 16⟩, ⟨"count", 4⟩]),
+  ("SmartObjectLayerData", .hand "SmartObjectLayerData" 4 9 24 [⟨"count", 4⟩]),
+  ("PlacedLayerData", .hand "PlacedLayerData" 4 33 109 [⟨"fixed", 8⟩, ⟨"count", 4⟩]),
+  ("TypeToolObjectSetting", .hand "TypeToolObjectSetting" 4 33 102 [⟨"fixed", 8⟩, ⟨"count", 4⟩, ⟨"count", 4⟩]),
+  ("LinkedLayer", .hand "LinkedLayer" 4 45 30 [⟨"count", 4⟩, ⟨"count", 4⟩, ⟨"fixed", 1⟩]),
+  ("LinkedLayers", .hand "LinkedLayers" 66 70 0 [⟨"while", 8⟩, ⟨"count", 4⟩, ⟨"count", 4⟩, ⟨"fixed", 1⟩]),
+  ("ColorLookup", .hand "ColorLookup" 4 8 18 [⟨"count", 4⟩]),
+  ("VectorStrokeContentSetting", .hand "VectorStrokeContentSetting" 4 8 20 [⟨"count", 4⟩]),
+  ("DescriptorBlock", .hand "DescriptorBlock" 4 7 16 [⟨"count", 4⟩]),
+  ("DescriptorBlock2", .hand "DescriptorBlock2" 4 8 20 [⟨"count", 4⟩])]
 
-theorem desc_body_progress (tb : Descriptor.Tables) : (descTable tb).all (fun e => e.2.bodyProgress) = true := by
-  decide +revert
+theorem descTable_cc (tb : Descriptor.Tables) (pad : Nat) : descTable = [
+    ("MetadataSetting", (MetadataSetting.cc tb).sh),
+    ("MetadataSettings", (MetadataSettings.cc tb).sh),
+    ("SmartObjectLayerData", (SmartObjectLayerData.cc tb pad).sh),
+    ("PlacedLayerData", (PlacedLayerData.cc tb pad).sh),
+    ("TypeToolObjectSetting", (TypeToolObjectSetting.cc tb pad).sh),
+    ("LinkedLayer", (LinkedLayer.cc tb pad).sh),
+    ("LinkedLayers", (LinkedLayers.cc tb).sh),
+    ("ColorLookup", (ColorLookup.cc tb pad).sh),
+    ("VectorStrokeContentSetting", (VectorStrokeContentSetting.cc tb pad).sh),
+    ("DescriptorBlock", (DescriptorResource.cc tb).sh),
+    ("DescriptorBlock2", (Descriptor2Payload.cc tb pad).sh)] := rfl
+
+theorem DescriptorPayload.cc_sh (tb : Descriptor.Tables) (pad : Nat) :
+    (DescriptorPayload.cc tb pad).sh = (DescriptorResource.cc tb).sh := rfl
+
+theorem desc_body_progress : descTable.all (fun e => e.2.bodyProgress) = true := by decide
 
 /-- the classes of this unit that do NOT obey `Cost` (an undone speculative read is paid by nothing): for them
 `SliceV6.decC_left` (linear in the bytes LEFT), `SlicesV6.decC_left` and `Slices.decC_left` (QUADRATIC) are what holds -/
